@@ -10,7 +10,7 @@ export CARGO_NET_OFFLINE=true CARGO_TARGET_DIR=$W/target
 git checkout -q -- . ; rm -f crates/$CR/tests/demo_$p.rs
 git apply OUT/patch.diff || { echo "patch does not apply"; exit 2; }
 suite=$(cargo test --workspace --no-fail-fast --offline 2>&1 | grep -E "^test result" | awk '{p+=$4; f+=$6} END {print p" passed "f" failed"}')
-cp OUT/demo_$p.rs crates/$CR/tests/demo_$p.rs
+mkdir -p crates/$CR/tests; cp OUT/demo_$p.rs crates/$CR/tests/demo_$p.rs
 cargo test -p $CR --test demo_$p --offline > /tmp/demo_with_$P.log 2>&1; with_rc=$?
 git checkout -q -- crates
 cargo test -p $CR --test demo_$p --offline > /tmp/demo_without_$P.log 2>&1; without_rc=$?
